@@ -105,6 +105,56 @@ func runLedgerImpl(ops []lop) (obs []lobs, entries []progress.LedgerEntry, idx m
 	return
 }
 
+// runLedgerGrouped: the same operations, but two adjacent written reports of ONE transaction (a batch that
+// holds rows of two deliveries of it, or two chunks of one delivery) reach the tracker as ONE map with two
+// entries, as a worker's report does.  The observation of the second op of such a pair is "none".
+func runLedgerGrouped(ops []lop) (obs []lobs, entries []progress.LedgerEntry, idx map[string]string, grouped int) {
+	v := progress.NewVerifLedger()
+	for i := 0; i < len(ops); i++ {
+		o := ops[i]
+		var r lobs
+		pair := false
+		switch o.Op {
+		case "S":
+			if v.Seen([]*progress.Seen{{Transaction: o.T, TimeBasedKey: o.K, TotalMsgs: int(o.N), CommitWalStart: o.C}}) != nil {
+				r.res = "error"
+			} else {
+				r.res = "none"
+			}
+		case "W":
+			m := ordered_map.NewOrderedMap()
+			m.Set(o.K, &progress.Written{Transaction: o.T, TimeBasedKey: o.K, Count: int(o.N)})
+			if i+1 < len(ops) && ops[i+1].Op == "W" && ops[i+1].T == o.T && ops[i+1].K != o.K {
+				n := ops[i+1]
+				m.Set(n.K, &progress.Written{Transaction: n.T, TimeBasedKey: n.K, Count: int(n.N)})
+				pair = true
+				grouped++
+			}
+			if v.Written(m) != nil {
+				r.res = "error"
+			} else {
+				r.res = "none"
+			}
+		case "E":
+			if lsn, ok := v.Emit(); ok {
+				r.res, r.emit = "emit", lsn
+			} else {
+				r.res = "none"
+			}
+		}
+		obs = append(obs, r)
+		if r.res == "error" {
+			break
+		}
+		if pair {
+			obs = append(obs, lobs{res: "none"})
+			i++
+		}
+	}
+	entries, idx = v.Snapshot()
+	return
+}
+
 func ledgerCaseGallina(c lcase, obs []lobs, entries []progress.LedgerEntry, idx map[string]string) string {
 	ops := make([]string, len(c.Ops))
 	for i, o := range c.Ops {
@@ -420,7 +470,7 @@ func init() {
 				cases = append(cases, genSoupLedgerCase(rng))
 			}
 		}
-		rep.Rule = "corpus first, then seeded: 45% pipeline-like histories without stale completions (one transaction in seven after the first is closed by a SYNTHETIC commit report at its predecessor's position, as error recovery produces; one multi-row transaction in six is LONG: its first batch is written, then 13-20 ledger ticks pass before the rest and the COMMIT report arrive), 30% pipeline-like with arbitrary (possibly stale) completion order, 25% random op soup over 3 transaction ids x 3 keys incl. duplicate Seen, zero commits and keys shared across ids. Non-trivial: at least one emission or error observed and >= 4 ops; distinct by op sequence."
+		rep.Rule = "corpus first, then seeded (every pipeline-like history is also run with adjacent written reports of one transaction under different delivery keys merged into ONE map, implementation and monitors only): 45% pipeline-like histories without stale completions (one transaction in seven after the first is closed by a SYNTHETIC commit report at its predecessor's position, as error recovery produces; one multi-row transaction in six is LONG: its first batch is written, then 13-20 ledger ticks pass before the rest and the COMMIT report arrive), 30% pipeline-like with arbitrary (possibly stale) completion order, 25% random op soup over 3 transaction ids x 3 keys incl. duplicate Seen, zero commits and keys shared across ids. Non-trivial: at least one emission or error observed and >= 4 ops; distinct by op sequence."
 		var sb strings.Builder
 		sb.WriteString("From Bifrost.model Require Import Base Ledger.\nOpen Scope string_scope.\nDefinition cases : list lcase := [\n")
 		seen := map[string]bool{}
@@ -460,7 +510,26 @@ func init() {
 			if len(rep.Samples) < 3 && emits > 0 {
 				rep.Samples = append(rep.Samples, c)
 			}
-			rep.Violations = append(rep.Violations, ledgerMonitor(c, obs, entries, idx)...)
+			vs := ledgerMonitor(c, obs, entries, idx)
+			rep.Violations = append(rep.Violations, vs...)
+			if len(c.Truth) > 0 {
+				// the same history with adjacent written reports of one transaction merged into one map (what a
+				// worker's report of a batch with two deliveries of a transaction looks like): implementation only
+				have := map[string]bool{}
+				for _, v := range vs {
+					have[v.Property+v.Signature] = true
+				}
+				o2, e2, i2, ng := runLedgerGrouped(c.Ops)
+				if ng > 0 {
+					core.Bump(rep, "grouped-written-maps")
+					for _, v := range ledgerMonitor(c, o2, e2, i2) {
+						if !have[v.Property+v.Signature] {
+							v.What = "(with adjacent written reports of one transaction arriving as ONE map) " + v.What
+							rep.Violations = append(rep.Violations, v)
+						}
+					}
+				}
+			}
 		}
 		sb.WriteString("\n].\nDefinition M := Eval vm_compute in mismatches lcase_ok cases.\nPrint M.\n")
 		return sb.String()
